@@ -571,7 +571,13 @@ func (s *lockingStream) Gen(r *tr.Rng) *tr.Op {
 	}
 	s.push(s.genBegin(r))
 	if r.Chance(80) {
-		s.push(s.genReq(r))
+		req := s.genReq(r)
+		s.push(req)
+		if strings.Contains(req.Cls, "weight-up-after") {
+			// look at the state right after the weight change, before the end-of-block hook (which fails - and ends this
+			// world - if an exited or jailed validator was handed power)
+			s.push(tr.NewOp("dump", "dump.lock"))
+		}
 	}
 	s.push(tr.NewOp("end", "hook.lock.end", "height", s.height, "time", s.now))
 	if r.Chance(40) {
